@@ -306,6 +306,76 @@ def n21_each_worker(src, log):
         log.append(f"N21 every element of {vec} visited by index; calls through the element -> vx_elem_*(&mut {vec}, k, ..)")
 
 
+def n24_key_searches(src, log):
+    """two searches by key over a slice, recognised after N1 by the exact shape of their predicate:
+         FS.iter().position(|a| { let RecordTypeField { key, .. } = a; key == K })   ->  vx_field_position(&FS, K)
+         PS.iter().any(|a| { let (k, _) = a; *k == E })                             ->  vx_names(&PS, E)
+    (std: index of the first element whose `key` equals K / whether some pair's first component equals E; the helpers
+    carry exactly that as their contract)"""
+    while True:
+        toks = lex(src)
+        hit = None
+        for i, t in enumerate(toks):
+            if t.text in ("position", "any") and i >= 5 and [x.text for x in toks[i - 5:i]] == [".", "iter", "(", ")", "."] and toks[i + 1].text == "(":
+                o = i + 1
+                c = toks[o].mate
+                inner = [x.text for x in toks[o + 1:c]]
+                cs = _chain_start(toks, i - 5)
+                recv = src[toks[cs].start:toks[i - 6].end]
+                if t.text == "position" and len(inner) >= 17 and inner[0] == "|" and inner[2] == "|" and inner[3] == "{" \
+                        and inner[4:13] == ["let", "RecordTypeField", "{", "key", ",", "..", "}", "=", inner[1]] and inner[13] == ";" \
+                        and inner[14:16] == ["key", "=="] and inner[-1] == "}":
+                    k0 = o + 1 + 16
+                    arg = src[toks[k0].start:toks[c - 2].end]
+                    hit = (toks[cs].start, toks[c].end, f"vx_field_position(&{recv}, {arg})", "position by key")
+                    break
+                if t.text == "any" and len(inner) >= 17 and inner[0] == "|" and inner[2] == "|" and inner[3] == "{" \
+                        and inner[4:12] == ["let", "(", "k", ",", "_", ")", "=", inner[1]] and inner[12] == ";" \
+                        and inner[13:16] == ["*", "k", "=="] and inner[-1] == "}":
+                    k0 = o + 1 + 16
+                    arg = src[toks[k0].start:toks[c - 2].end]
+                    hit = (toks[cs].start, toks[c].end, f"vx_names(&{recv}, {arg})", "any by first component")
+                    break
+        if hit is None:
+            return src
+        a, b, rep, what = hit
+        src = src[:a] + rep + src[b:]
+        log.append(f"N24 slice search ({what}) -> {rep}")
+
+
+def n26_for_pair_iter(src, log):
+    """for (A, B) in V.iter() { BODY }  ->  for __vx_j in 0..V.len() { let A = &V[__vx_j].0; let B = &V[__vx_j].1; BODY }
+    (iteration over a slice of pairs, each pair destructured by reference)"""
+    while True:
+        toks = lex(src)
+        hit = None
+        for i, t in enumerate(toks):
+            if not (t.text == "for" and t.kind == "ident" and i + 1 < len(toks) and toks[i + 1].text == "("):
+                continue
+            pc = toks[i + 1].mate
+            pat = _split_args(src, toks, i + 1)
+            if len(pat) != 2 or toks[pc + 1].text != "in" or any(not p.strip().isidentifier() for p in pat):
+                continue
+            k = pc + 2
+            d = t.depth
+            while k < len(toks) and not (toks[k].text == "{" and toks[k].depth == d):
+                if toks[k].kind == "open":
+                    k = toks[k].mate
+                k += 1
+            body = k
+            if [toks[x].text for x in range(body - 4, body)] != [".", "iter", "(", ")"]:
+                continue
+            recv = src[toks[pc + 2].start:toks[body - 5].end]
+            hit = (i, body, pat[0].strip(), pat[1].strip(), recv)
+            break
+        if hit is None:
+            return src
+        i, body, A, B, recv = hit
+        rep = f"for __vx_j in 0..{recv}.len() {{ let {A} = &{recv}[__vx_j].0; let {B} = &{recv}[__vx_j].1;"
+        src = src[:toks[i].start] + rep + src[toks[body].end:]
+        log.append(f"N26 for ({A}, {B}) in {recv}.iter() -> index loop")
+
+
 def find_closures(src, toks):
     """Yield (bar0, bar1, body_start_tok, body_end_tok_inclusive, has_block) for every closure."""
     res = []
@@ -1459,6 +1529,10 @@ def normalise(src, rules, log, ctx=None):
             src = n10_entry_append(src, log)
         elif r == "nmirlits":
             src = nmirlits(src, log)
+        elif r == "n24":
+            src = n24_key_searches(src, log)
+        elif r == "n26":
+            src = n26_for_pair_iter(src, log)
         elif r == "n22":
             src = n22_option_map_or(src, log)
         elif r == "n21":
